@@ -235,6 +235,20 @@ func pickRemoval(g *core.G, n *core.N) []string {
 		}
 	case 3: // a single tip
 		rm = []string{tips[g.Intn(nt)]}
+		// rooted tree, one child of the root is a tip, the other has ≥ 3 children: the tip goes and so
+		// many children of the other that exactly two are left (the node that becomes the root loses children)
+		if len(n.Kids) == 2 && g.Chance(0.7) {
+			for i := 0; i < 2; i++ {
+				leaf, other := n.Kids[i], n.Kids[1-i]
+				if len(leaf.Kids) == 0 && len(other.Kids) >= 3 {
+					rm = []string{leaf.Name}
+					perm := g.R.Perm(len(other.Kids))
+					for _, j := range perm[2:] {
+						rm = append(rm, other.Kids[j].Leaves()...)
+					}
+				}
+			}
+		}
 	case 4: // leaves fewer than 3 tips (outside the property's quantifier: tie only)
 		perm := g.R.Perm(nt)
 		k := nt - g.Intn(3)
